@@ -264,6 +264,15 @@ impl KnobsPlan {
         }
     }
 
+    /// tokio-rustls + tokio-websockets handshakes assume a send buffer that holds a few hundred bytes (see
+    /// `World::new_pipe`); real kernels never go below 4 KiB
+    pub fn for_transport(mut self, t: Transport) -> Self {
+        if matches!(t, Transport::Tls | Transport::Wss | Transport::Quic) && self.sndbuf < 4096 {
+            self.sndbuf = 4096;
+        }
+        self
+    }
+
     pub fn to_knobs(&self) -> octo_squirrel::verif::world::Knobs {
         octo_squirrel::verif::world::Knobs {
             latency_ns: self.latency_us * 1000,
